@@ -3,112 +3,73 @@
    Only statements; every proof is `exact <lemma>`.
 
    Model: Model/Chain.v (ChainFinder.load_nodes/meld_new_hashes/all_chains_ending_at/maximum_path/
-   find_ancestral_path, BlockChain.add_headers/_longest_local_block_chain/lock_to_index/tuple_for_index ...).
+   find_ancestral_path, BlockChain.add_headers/_longest_local_block_chain/lock_to_index/tuple_for_index ...),
+   following /repo after the fixes cdbeb46 (the upward walk of meld_new_hashes stops at an ancestor that is still
+   in new_hashes), 30b0f94 (add_headers skips a header whose hash is parent_hash) and 0658a14 (lock_to_index keeps
+   the rest of the reported chain as the cache).
    Python's `set.pop()` and the iteration order of a set are CHOICES supplied from outside: every event of a
    history carries a pop priority list [prio] and an iteration preference [pref]; all theorems below quantify
    over them (they are part of [evs]).  Spec: Spec/ChainSpec.v (headers = finite parent map with positive weights,
    [heaviest] = maximum-weight chain from the anchor among the delivered headers, [good_trace]).
 
-   The full statement is REFUTED on the current tree: three defect families, each with a concrete witness
-   history (replayed on the real BlockChain by harness/c15.py, listed in known/C15.txt) and an executable
-   exclusion predicate on histories, Spec.ChainSpec.excluded : hash -> list event -> option N
-     Some 1  orphan-parent-with-descendant : a batch brings a header that earlier-delivered orphans name as
-             parent together with another new header that descends from it (walk runs through it, the orphan
-             subtree is never attached);
-     Some 2  anchor-redelivered            : a batch contains the header whose hash is the current anchor
-             (the block at the lock point);
-     Some 3  lock-with-tie                 : lock_to_index is called while two maximum-weight chains exist
-             (the rebuilt finder may keep the other one: the reported chain changes without ops).
-   Everything else is proved, without any bound on sizes: C15_partial.  In particular every single-header
-   batch and every batch none of whose headers was being waited for is covered.
-   NOT unconditional: the ops-replay and index-map clauses fail on the lock-with-tie witness (C15_refuted_3),
-   so they are stated under the same exclusion (C15_partial_ops_replay, C15_partial_index_maps_agree). *)
+   Hypothesis of the history-level theorems, [wf_headers]: the delivered headers form a forest not containing the
+   anchor (a rank, e.g. the height, decreases towards the parent), a hash determines its header, weights are
+   positive.  No exclusion predicate remains: duplicates (also of locked headers, also of the block at the lock
+   point), orphans whose parent arrives in the same batch as other descendants, equally heavy chains at a lock —
+   everything is covered.  A lock index beyond the reported length raises IndexError in Python and stops the
+   modelled run with [OutOfRange]; every snapshot before it is covered. *)
 From Coq Require Import List NArith ZArith Bool Lia.
 From PV Require Import Base.Outcome Model.Chain Spec.ChainSpec
-  Proofs.ChainP Proofs.ChainFinderP Proofs.ChainBestP Proofs.ChainHistP Proofs.ChainRefuteP.
+  Proofs.ChainP Proofs.ChainFinderP Proofs.ChainBestP Proofs.ChainHistP Proofs.ChainExamplesP.
 Import ListNotations.
 Local Open Scope N_scope.
 
 (* ------------------------------------------------------------------ the full statement *)
-(* for every forest of headers (a rank decreases towards the parent, a hash determines its header, weights
-   are positive, no header has the anchor's hash), every batching, every lock index, every pop order and
-   iteration order: the run does not crash (a lock index beyond the reported length stops it with
-   IndexError, as in Python) and every snapshot — taken after each event — is good: the reported chain is a
-   chain from the initial anchor, its unlocked part is a heaviest chain from the current anchor among the
-   headers delivered so far, hash_to_index_lookup agrees with it, and all ops returned so far, applied to
-   [], reproduce it *)
+(* for every forest of headers, every batching, every lock index, every pop order and iteration order: the run
+   does not crash and every snapshot — taken after each event — is good: the reported chain is a chain from the
+   initial anchor, its unlocked part is a heaviest chain from the current anchor among the headers delivered so
+   far, hash_to_index_lookup agrees with it, and all ops returned so far, applied to [], reproduce it *)
 Definition C15_statement : Prop :=
   forall (anchor : hash) (evs : list event), wf_headers anchor (all_headers evs) ->
   forall tr st, run anchor evs = (tr, st) ->
   (st = Done \/ st = OutOfRange) /\ good_trace anchor [] [] evs tr.
 
-Theorem C15_refuted : ~ C15_statement.
-Proof. exact refuted. Qed.
-Print Assumptions C15_refuted.
+Theorem C15_holds : C15_statement.
+Proof. exact full_history. Qed.
+Print Assumptions C15_holds.
 
-(* the three witnesses: well-formed, the model runs them to the end, some snapshot is not good, and the
-   exclusion predicate names the family *)
-Definition C15_violated_by (anchor : hash) (evs : list event) : Prop :=
-  wf_headers anchor (all_headers evs) /\
-  exists tr, run anchor evs = (tr, Done) /\ ~ good_trace anchor [] [] evs tr.
-
-(* deliver [7<-9, 6<-7], then [8<-9, 9<-anchor] with 8 popped first: [9,8] reported, [9,7,6] known *)
-Theorem C15_refuted_1 : C15_violated_by 0 refute1 /\ excluded 0 refute1 = Some 1.
-Proof. exact refute1_violates. Qed.
-Print Assumptions C15_refuted_1.
-(* [1<-0, 2<-1, 3<-2]; lock_to_index(2); deliver 2<-1 again: 3 is never reported again *)
-Theorem C15_refuted_2 : C15_violated_by 0 refute2 /\ excluded 0 refute2 = Some 2.
-Proof. exact refute2_violates. Qed.
-Print Assumptions C15_refuted_2.
-(* [1<-0, 2<-1], [3<-2], [11<-2]; lock_to_index(1), the rebuilt finder iterates 11 first: the reported chain
-   changes from [1,2,3] to [1,2,11] although no op was returned (ops replay and index maps break) *)
-Theorem C15_refuted_3 : C15_violated_by 0 refute3 /\ excluded 0 refute3 = Some 3.
-Proof. exact refute3_violates. Qed.
-Print Assumptions C15_refuted_3.
-
-(* ------------------------------------------------------------------ what holds *)
-(* the statement restricted by the exclusion predicate, nothing else excluded *)
-Theorem C15_partial :
-  forall (anchor : hash) (evs : list event), wf_headers anchor (all_headers evs) ->
-  excluded anchor evs = None ->
-  forall tr st, run anchor evs = (tr, st) ->
-  (st = Done \/ st = OutOfRange) /\ good_trace anchor [] [] evs tr.
-Proof. exact partial_history. Qed.
-Print Assumptions C15_partial.
-
-(* the three clauses of the property for the snapshot after the k-th event, separately *)
-Theorem C15_partial_reports_heaviest :
-  forall anchor evs tr st, wf_headers anchor (all_headers evs) -> excluded anchor evs = None ->
-  run anchor evs = (tr, st) ->
+(* the three clauses of the property for the snapshot [s] taken after the k-th event, separately;
+   [all_headers (firstn (S k) evs)] = the headers delivered so far, [flat_map ops_of (firstn (S k) tr)] = all ops
+   returned so far *)
+Theorem C15_reports_heaviest :
+  forall anchor evs tr st, wf_headers anchor (all_headers evs) -> run anchor evs = (tr, st) ->
   forall k s, nth_error tr k = Some s -> (k < length evs)%nat ->
   is_chain (all_headers (firstn (S k) evs)) anchor (s_chain s) /\
   heaviest (all_headers (firstn (S k) evs)) (snapshot_anchor anchor s) (skipn (s_locked s) (s_chain s)).
 Proof. exact snapshot_chain_heaviest. Qed.
-Print Assumptions C15_partial_reports_heaviest.
+Print Assumptions C15_reports_heaviest.
 
-Theorem C15_partial_index_maps_agree :
-  forall anchor evs tr st, wf_headers anchor (all_headers evs) -> excluded anchor evs = None ->
-  run anchor evs = (tr, st) ->
+Theorem C15_index_maps_agree :
+  forall anchor evs tr st, wf_headers anchor (all_headers evs) -> run anchor evs = (tr, st) ->
   forall k s, nth_error tr k = Some s -> (k < length evs)%nat ->
   (forall i h, nth_error (s_chain s) i = Some h -> dget h (s_h2i s) = Some (Z.of_nat i)) /\
   (forall h z, dget h (s_h2i s) = Some z -> exists i, z = Z.of_nat i /\ nth_error (s_chain s) i = Some h).
 Proof. exact snapshot_maps. Qed.
-Print Assumptions C15_partial_index_maps_agree.
+Print Assumptions C15_index_maps_agree.
 
-Theorem C15_partial_ops_replay :
-  forall anchor evs tr st, wf_headers anchor (all_headers evs) -> excluded anchor evs = None ->
-  run anchor evs = (tr, st) ->
+Theorem C15_ops_replay :
+  forall anchor evs tr st, wf_headers anchor (all_headers evs) -> run anchor evs = (tr, st) ->
   forall k s, nth_error tr k = Some s -> (k < length evs)%nat ->
   apply_ops (flat_map ops_of (firstn (S k) tr)) [] = Some (s_chain s).
 Proof. exact snapshot_ops. Qed.
-Print Assumptions C15_partial_ops_replay.
+Print Assumptions C15_ops_replay.
 
-(* ChainFinder alone: load_nodes keeps the invariant of DESIGN.md appendix D (finder_ok) for every batch that
-   is not bad and every pop order; [p'] / [N0] are the parent map and the new hashes after registration *)
+(* ChainFinder alone: load_nodes keeps the invariant of DESIGN.md appendix D (finder_ok) for EVERY batch and every
+   pop order, and never raises or runs out of fuel; [p'] / [N0] are the parent map and the new hashes after
+   registration, [ranked] says the parent map has no cycle *)
 Theorem C15_finder_invariant_preserved :
   forall (rk : hash -> nat) (cf : finder) (nodes : list (hash * hash)) p' N0,
   finder_ok cf -> register nodes (pl cf) [] = (p', N0) -> ranked rk p' ->
-  bad_batch (pl cf) nodes = false ->
   forall prio, exists cf', load_nodes prio nodes cf = Ret cf' /\ finder_ok cf' /\ pl cf' = p'.
 Proof. exact load_nodes_ok. Qed.
 Print Assumptions C15_finder_invariant_preserved.
@@ -125,10 +86,22 @@ Theorem C15_reported_is_heaviest :
 Proof. exact reported_heaviest. Qed.
 Print Assumptions C15_reported_is_heaviest.
 
-(* non-vacuity: a history with an orphan subtree that is adopted later, a fork, a lock and a later extension
-   meets every hypothesis of C15_partial; the model reports [9,7,6] and then [9,7,6,13] *)
-Example C15_partial_applies :
-  wf_headers 0 (all_headers clean_example) /\ excluded 0 clean_example = None /\
+(* the three histories on which the code used to fail, evaluated on the model with the pop order / preference that
+   exposed the defect (they are also replayed on the real BlockChain by harness/c15.py on every run):
+   1. [7<-9, 6<-7], then [8<-9, 9<-anchor] with 8 popped first: [9,7,6] is reported *)
+Example C15_regression_orphan_parent : wf_headers 0 (all_headers regress1) /\
+  exists tr, run 0 regress1 = (tr, Done) /\ map s_chain tr = [[]; [9; 7; 6]].
+Proof. exact regress1_ok. Qed.
+(* 2. [1<-0, 2<-1, 3<-2]; lock_to_index(2); 2<-1 again; 4<-3: 3 and 4 stay reported *)
+Example C15_regression_anchor_redelivered : wf_headers 0 (all_headers regress2) /\
+  exists tr, run 0 regress2 = (tr, Done) /\ map s_chain tr = [[1; 2; 3]; [1; 2; 3]; [1; 2; 3]; [1; 2; 3; 4]].
+Proof. exact regress2_ok. Qed.
+(* 3. [1<-0, 2<-1], [3<-2], [11<-2]; lock_to_index(1) with the other tied chain preferred afterwards: unchanged *)
+Example C15_regression_lock_with_tie : wf_headers 0 (all_headers regress3) /\
+  exists tr, run 0 regress3 = (tr, Done) /\ map s_chain tr = [[1; 2]; [1; 2; 3]; [1; 2; 3]; [1; 2; 3]].
+Proof. exact regress3_ok. Qed.
+(* non-vacuity: an orphan subtree adopted later, a fork, a lock and a later extension *)
+Example C15_example : wf_headers 0 (all_headers clean_example) /\
   exists tr, run 0 clean_example = (tr, Done) /\
     map s_chain tr = [[]; [9; 7; 6]; [9; 7; 6]; [9; 7; 6]; [9; 7; 6; 13]].
 Proof. exact clean_example_ok. Qed.
